@@ -123,3 +123,4 @@ static inline T vp_map_call(size_t channel, const vec_T *rn, vec_T *coords, cons
   return x;
 }
 #endif
+
